@@ -18,6 +18,44 @@ CLAIMED = {
   note="Assumed: bufio.Scanner / net.Conn contracts; the callback is an arbitrary function observed through ghost state. "
        "Concurrency clause (independent connections) rests on handleConnection's frame (no Server field written), not on a schedule exploration. PAM-module decodability is not decided (C code).",
   design="3 C05"),
+ "C07": dict(
+  text="Deductive proof of the session factory over an idealised AEAD: the key is a fresh 16-byte crypto/rand draw (failure of the draw is an error), every token uses a "
+       "new 12-byte draw as nonce, Generate seals exactly '<user>:<true|false>:<unix time>' and emits base64url(nonce):base64url(ciphertext); Check accepts only a "
+       "(nonce, ciphertext) this factory's key sealed, whose plaintext splits into colon-free user, strict true/false and a decimal time with 0 <= age <= lifetime. "
+       "Lemma token-identity: an accepted plaintext of the issued form yields exactly the issued user and flag.",
+  note="Assumed: AES-GCM as an ideal AEAD (Open succeeds only on what Seal produced under the same key; openf(sealf(p)) = p), distinct crypto/rand draws differ, "
+       "base64 is injective on its image, the clock does not step backwards inside one function. The base64 text layer itself is not part of the claim (as the property says).",
+  design="3 C07"),
+ "C04": dict(
+  text="Deductive proof of the wiring of all five frontends and of the request funnel: each frontend passes exactly the decoded credentials to Store.Authenticate "
+       "(LDAP: the bind name cut at the first '@'), accepts iff the store accepted without error (HTTP 200 / LDAP success / SASL ok / exit 0,1,3), the wrapper sends them unchanged "
+       "and returns the received results in order, the dispatcher calls authenticate with the request's fields and answers on the request's channel with that call's result, "
+       "and authenticate returns Dir.Authenticate's five results unchanged; Dir.Authenticate's 'error implies denial' is proved over the store code.",
+  note="Assumed: what r.BasicAuth(), json.Decoder, the LDAP library and urfave/cli hand over are the submitted credentials (symbolic inputs); a value received from a reply channel "
+       "is the value the dispatcher's checked send produced (channel hand-off). SASL field limits are C13/C05.",
+  design="3 C04"),
+ "C06": dict(
+  text="Deductive proof of call-site authorisation in all eight handlers: every store mutation / listing call is dominated by a Check of the request's own token that returned 200 "
+       "with the admin flag (update: admin, or token user = target, or a successful Authenticate of target with the old password, and exactly one credential kind), with the request's "
+       "own arguments; a token is generated only after a successful Authenticate and names that user and the store-reported admin flag; status 200 only if the store call happened and "
+       "returned nil; a list is put into a response only from the store's result under a valid admin session; exactly one response per request. Check's own meaning is C07's proof.",
+  note="Assumed: JSON decoding fills the request struct with arbitrary values (that is the symbolic input); mux routing; channel hand-off to the dispatcher. 'Store byte-for-byte "
+       "unchanged on refusal' rests on: no mutating call was made on those paths (proved) and C15 for failed store calls.",
+  design="3 C06"),
+ "C12": dict(
+  text="Deductive proof of the safety clauses: Authenticate reports upgradeable exactly as (default != record's parameter-set id); an upgrade request is queued only for a successful, "
+       "upgradeable login, only if an upgrade channel is configured, and carries exactly that login's credentials; with upgrades off nothing is ever sent and authentication does not touch the "
+       "file system (frame); local upgrades go through the ordinary policy-checked update, which writes a record under the default set for exactly that password keeping auxiliary lines and "
+       "extension; the remote upgrade request carries the login password as old password only.",
+  note="Not decided: the convergence clause ('on an idle agent the rewrite does happen') is liveness, and interleaving with other writers is C11. Assumed: channel hand-off.",
+  design="3 C12"),
+ "C17": dict(
+  text="Deductive proof that every write path (init, add, update; CLI, HTTP API and local upgrade all funnel into these three functions) calls the store only when the configured "
+       "policy accepted exactly (password, username), that a refusal returns an error without any store call, that accepted passwords are not refused on policy grounds, that the zxcvbn "
+       "condition parser accepts exactly the documented grammar and stores the matching comparator, each comparator is >= on its field, and that a policy constructor error stops NewStore "
+       "before the dispatcher is started.",
+  note="Assumed: the zxcvbn scorer is an uninterpreted function of (password, [username, 'whawty']); float thresholds are exact; policy objects are only built by newZXCVBNPolicy.",
+  design="3 C17"),
 }
 
 NOT_APPLICABLE = {
